@@ -250,50 +250,66 @@ Theorem C15_derive_node_labels : forall L t nx,
 Proof. exact derive_nlabs_tight. Qed.
 Print Assumptions C15_derive_node_labels.
 
-(** ** replace_edge(g, e, g): host used as its own replacement (finding c15_replacement_is_host).
-    The faithful aliasing model never returns a result that satisfies the specification ... *)
-Theorem C15_replace_alias_never_spec : forall g nx e g' nx' nm em,
-  replace_edge_alias_model g nx e = (g', nx', Ok (nm, em)) -> ~ replace_spec g e g g' nm em.
-Proof. exact replace_alias_never_spec. Qed.
-Print Assumptions C15_replace_alias_never_spec.
+(** ** replace_edge(g, e, g): host used as its own replacement.
+    The code as it is now (/repo 0be4bef reads the replacement before mutating the host): the aliased
+    call is the functional model with [r := g]; on a well-formed, well-typed call it returns a result
+    that satisfies the replacement specification, preserves well-formedness, the counter bound and the
+    label discipline; a wrong type is rejected with nothing changed *)
+Theorem C15_replace_self_spec : forall L g nx e,
+  wf_graphb g = true -> belowb nx g = true -> memb edge_eqb (g_edges g) e = true ->
+  nodupb node_eqb (g_ext g) = true -> functionalb L = true -> labels_in L g = true ->
+  (l_type (e_label e) = gtype g ->
+     exists g' nx' nm em, replace_edge_self_model g nx e = (g', nx', Ok (nm, em)) /\ replace_spec g e g g' nm em /\
+                          wf_graphb g' = true /\ belowb nx' g' = true /\ labels_in L g' = true /\ nx <= nx')
+  /\ (l_type (e_label e) <> gtype g -> replace_edge_self_model g nx e = (g, nx, Err ValueErr)).
+Proof. exact replace_self_spec. Qed.
+Print Assumptions C15_replace_self_spec.
 
-(** ... on every well-formed, well-typed aliased call it raises RuntimeError with the edge already
-    removed, or (every node external, [e] the only edge) returns the host minus [e] with an empty
-    edge map, which is not a replacement by the caller's graph *)
-Theorem C15_replace_alias_guarded : forall L g nx e,
+(** ... in particular the result contains a copy of [e] itself (what the old code lost) *)
+Theorem C15_replace_self_copies_e : forall L g nx e,
   wf_graphb g = true -> belowb nx g = true -> memb edge_eqb (g_edges g) e = true ->
   nodupb node_eqb (g_ext g) = true -> functionalb L = true -> labels_in L g = true ->
   l_type (e_label e) = gtype g ->
-  (exists g' nx', replace_edge_alias_model g nx e = (g', nx', Err RuntimeErr) /\
-                  has_edge_id g' (e_id e) = false /\ g' <> g)
-  \/ (exists nm, replace_edge_alias_model g nx e = (remove_edge_id g (e_id e), nx, Ok (nm, [])) /\
-                 ~ replace_spec g e g (remove_edge_id g (e_id e)) nm []).
-Proof. exact replace_alias_guarded_b. Qed.
-Print Assumptions C15_replace_alias_guarded.
+  exists g' nx' nm em ge, replace_edge_self_model g nx e = (g', nx', Ok (nm, em)) /\
+                          In (e, ge) em /\ In ge (g_edges g') /\ e_label ge = e_label e.
+Proof. exact replace_self_copies_e. Qed.
+Print Assumptions C15_replace_self_copies_e.
 
-(** concrete witnesses of both outcomes (vm_compute) *)
-Theorem C15_replace_alias_refuted :
+(** ** record of finding c15_replacement_is_host (fixed by 0be4bef): the OLD code, modelled by
+    [replace_edge_alias_model_old], never returned a result satisfying the specification ... *)
+Theorem C15_replace_alias_old_never_spec : forall g nx e g' nx' nm em,
+  replace_edge_alias_model_old g nx e = (g', nx', Ok (nm, em)) -> ~ replace_spec g e g g' nm em.
+Proof. exact replace_alias_old_never_spec. Qed.
+Print Assumptions C15_replace_alias_old_never_spec.
+
+(** ... on every well-formed, well-typed aliased call it raised RuntimeError with the edge already
+    removed, or (every node external, [e] the only edge) returned the host minus [e] with an empty
+    edge map, which is not a replacement by the caller's graph *)
+Theorem C15_replace_alias_old_guarded : forall L g nx e,
+  wf_graphb g = true -> belowb nx g = true -> memb edge_eqb (g_edges g) e = true ->
+  nodupb node_eqb (g_ext g) = true -> functionalb L = true -> labels_in L g = true ->
+  l_type (e_label e) = gtype g ->
+  (exists g' nx', replace_edge_alias_model_old g nx e = (g', nx', Err RuntimeErr) /\
+                  has_edge_id g' (e_id e) = false /\ g' <> g)
+  \/ (exists nm, replace_edge_alias_model_old g nx e = (remove_edge_id g (e_id e), nx, Ok (nm, [])) /\
+                 ~ replace_spec g e g (remove_edge_id g (e_id e)) nm []).
+Proof. exact replace_alias_old_guarded_b. Qed.
+Print Assumptions C15_replace_alias_old_guarded.
+
+(** concrete witnesses of both outcomes of the old code (vm_compute), next to the outcome of the code
+    as it is now on the same input *)
+Theorem C15_replace_alias_old_refuted :
   (wf_graphb al_host1 = true /\ belowb 0 al_host1 = true /\ memb edge_eqb (g_edges al_host1) al_e = true /\
    nodupb node_eqb (g_ext al_host1) = true /\ functionalb [al_t; al_X] = true /\ labels_in [al_t; al_X] al_host1 = true /\
    l_type (e_label al_e) = gtype al_host1 /\
-   exists g', replace_edge_alias_model al_host1 0 al_e = (g', 1, Err RuntimeErr) /\
+   exists g', replace_edge_alias_model_old al_host1 0 al_e = (g', 1, Err RuntimeErr) /\
               length (g_nodes g') = 3 /\ length (g_edges g') = 1) /\
   (wf_graphb al_host2 = true /\ belowb 0 al_host2 = true /\ memb edge_eqb (g_edges al_host2) al_e2 = true /\
    nodupb node_eqb (g_ext al_host2) = true /\ functionalb [al_X] = true /\ labels_in [al_X] al_host2 = true /\
    l_type (e_label al_e2) = gtype al_host2 /\
-   exists g' nm, replace_edge_alias_model al_host2 0 al_e2 = (g', 0, Ok (nm, [])) /\ g_edges g' = [] /\
+   exists g' nm, replace_edge_alias_model_old al_host2 0 al_e2 = (g', 0, Ok (nm, [])) /\ g_edges g' = [] /\
                  ~ replace_spec al_host2 al_e2 al_host2 g' nm [] /\
-                 exists g'' nm' em', replace_edge_model al_host2 0 al_e2 al_host2 = (g'', 1, Ok (nm', em')) /\
+                 exists g'' nm' em', replace_edge_self_model al_host2 0 al_e2 = (g'', 1, Ok (nm', em')) /\
                                      length (g_edges g'') = 1 /\ replace_spec al_host2 al_e2 al_host2 g'' nm' em').
-Proof. exact replace_alias_refuted. Qed.
-Print Assumptions C15_replace_alias_refuted.
-
-(** the positive theorem under the guard "the replacement is read before the host is mutated"
-    (a snapshot of [g]): the call returns and satisfies the specification *)
-Theorem C15_replace_snapshot_spec : forall L g nx e,
-  wf_graphb g = true -> belowb nx g = true -> memb edge_eqb (g_edges g) e = true ->
-  nodupb node_eqb (g_ext g) = true -> functionalb L = true -> labels_in L g = true ->
-  l_type (e_label e) = gtype g ->
-  exists g' nx' nm em, replace_edge_model g nx e g = (g', nx', Ok (nm, em)) /\ replace_spec g e g g' nm em.
-Proof. exact replace_snapshot_spec. Qed.
-Print Assumptions C15_replace_snapshot_spec.
+Proof. exact replace_alias_old_refuted. Qed.
+Print Assumptions C15_replace_alias_old_refuted.
